@@ -6,6 +6,7 @@ import (
 	"net/http"
 	"net/url"
 	"strings"
+	"time"
 
 	"github.com/gookit/rux"
 )
@@ -30,6 +31,8 @@ func (t *concThread) park() {
 func concBuild(c Sx) *rpEnv {
 	xs := c.Lst()
 	var opts []func(*rux.Router)
+	var onPanic []Sx
+	hasPanic := false
 	for _, o := range xs[1].Lst() {
 		switch o.Head() {
 		case "na":
@@ -38,11 +41,16 @@ func concBuild(c Sx) *rpEnv {
 			opts = append(opts, rux.StrictLastSlash)
 		case "cache":
 			opts = append(opts, rux.CachingWithNum(uint16(o.List[1].Int())))
+		case "onpanic":
+			onPanic, hasPanic = o.List[1].Lst(), true
 		default:
 			panic("conc: bad option " + o.String())
 		}
 	}
 	env := &rpEnv{r: rux.New(opts...), hs: map[int]rux.HandlerFunc{}}
+	if hasPanic {
+		env.r.OnPanic = rpHandler(onPanic)
+	}
 	for _, h := range xs[3].Lst() {
 		env.hs[h.List[0].Int()] = rpHandler(h.List[1].Lst())
 	}
@@ -92,22 +100,38 @@ func concExec(c Sx) Sx {
 			threads[i].event <- false
 		}()
 	}
+	// a request that ends up parking or finishing on behalf of another one (its context was handed to two
+	// requests at once) leaves the scheduler waiting: that is reported as (stuck), not as a harness failure
+	stuck := false
 	step := func(i int) {
-		if i < 0 || i >= n || done[i] {
+		if i < 0 || i >= n || done[i] || stuck {
 			return
 		}
-		threads[i].resume <- struct{}{}
-		if parked := <-threads[i].event; !parked {
-			done[i] = true
+		select {
+		case threads[i].resume <- struct{}{}:
+		case <-time.After(2 * time.Second):
+			stuck = true
+			return
+		}
+		select {
+		case parked := <-threads[i].event:
+			if !parked {
+				done[i] = true
+			}
+		case <-time.After(2 * time.Second):
+			stuck = true
 		}
 	}
 	for _, t := range xs[5].Lst() {
 		step(t.Int())
 	}
 	for i := 0; i < n; i++ {
-		for !done[i] {
+		for !done[i] && !stuck {
 			step(i)
 		}
+	}
+	if stuck {
+		return L(L(A("stuck")), L(A("solo")))
 	}
 	out := []Sx{A("reqs")}
 	out = append(out, results...)
@@ -124,6 +148,9 @@ func c03Gen(r *Rng, tier string, i int) Sx {
 	id := 0
 	yieldy := func(h int, last bool) []Sx {
 		ops := []Sx{L(A("yield")), ev(h * 10), L(A("params"))}
+		if r.Chance(1, 5) { // a handler writes into its own Params: request-local
+			ops = append(ops, L(A("sp"), S("k"), S(fmt.Sprintf("v%d", h))), L(A("yield")), L(A("params")))
+		}
 		if r.Chance(1, 4) {
 			ops = append(ops, wwr(fmt.Sprintf("h%d;", h)))
 		}
@@ -162,9 +189,13 @@ func c03Gen(r *Rng, tier string, i int) Sx {
 		}
 		path := fmt.Sprintf("/s%d", k)
 		probe := path
-		if r.Chance(1, 2) { // dynamic route
+		switch r.Intn(5) {
+		case 0, 1: // dynamic route
 			path = fmt.Sprintf("/d%d/{id}", k)
 			probe = fmt.Sprintf("/d%d/%d", k, r.Intn(3))
+		case 2: // dynamic route without variables (optional tail only)
+			path = fmt.Sprintf("/o%d[.html]", k)
+			probe = fmt.Sprintf("/o%d", k) + r.Pick([]string{"", ".html"})
 		}
 		route := L(A("route"), SL([]string{"GET"}), S(path), I(main), LS(rmw), L(), S(""))
 		if r.Chance(1, 3) {
@@ -189,7 +220,18 @@ func c03Gen(r *Rng, tier string, i int) Sx {
 	}
 	nreq := r.Range(2, 3)
 	var reqs []Sx
-	for k := 0; k < nreq; k++ {
+	var sched []Sx
+	if r.Chance(1, 5) { // a recovered panic first, then overlapping requests
+		hs = append(hs, L(I(190), L(L(A("yield")), ev(1900), L(A("panic"), I(190)))))
+		stmts = append(stmts, L(A("route"), SL([]string{"GET"}), S("/boom"), I(190), L(), L(), S("")))
+		opts = append(opts, L(A("onpanic"), L(ev(7777), L(A("w"), L(A("st"), I(500))), wwr("rec"))))
+		nreq = 3
+		reqs = append(reqs, L(S("GET"), S("/boom")))
+		for k := 0; k < 12; k++ {
+			sched = append(sched, I(0))
+		}
+	}
+	for k := len(reqs); k < nreq; k++ {
 		p := probes[r.Intn(len(probes))]
 		if r.Chance(1, 3) && k > 0 { // same route as the previous request
 			reqs = append(reqs, reqs[k-1])
@@ -197,7 +239,6 @@ func c03Gen(r *Rng, tier string, i int) Sx {
 		}
 		reqs = append(reqs, L(S(p.m), S(p.p)))
 	}
-	var sched []Sx
 	for k := r.Range(4, 40); k > 0; k-- {
 		sched = append(sched, I(r.Intn(nreq)))
 	}
